@@ -69,9 +69,12 @@ def density_case(draw, tier="quick"):
             sgn = (dz > 0) - (dz < 0)
             inc = draw(st.one_of(*incs))
             cur += inc * (sgn if sgn else 1)
+    # deep / high-pressure profiles: finely spaced depths (or densities) of large magnitude
+    zoff, roff = abs(draw(gen.big_offset)), abs(draw(gen.big_offset))
+    z, rho = gen.shifted(z, zoff), gen.shifted(rho, roff)
     rho = draw(gen.overlay_missing(rho))
     z = draw(gen.overlay_missing(z))
-    return {"rho": rho, "z": z, "suspect": s, "fail": f}
+    return {"rho": rho, "z": z, "suspect": s, "fail": f, "zoff": zoff, "roff": roff}
 
 
 def deltas(rho, z):
@@ -105,7 +108,8 @@ def check_density(case, rec):
     labels = [lab for lab, on in (("delta_near_threshold", near), ("constant_depth_pair", const), ("upcast", up),
                                   ("shared_suspect_fail", shared), ("one_threshold_absent", (s is None) != (f is None)),
                                   ("fail_gt_suspect", s is not None and f is not None and f > s),
-                                  ("has_missing", any(model.miss(v) for v in rho + z))) if on]
+                                  ("has_missing", any(model.miss(v) for v in rho + z)),
+                                  ("large_magnitude", bool(case.get("zoff") or case.get("roff")))) if on]
     rec.note(n >= 2 and (near or const or shared or up), labels)
     kw = {}
     if s is not None:
